@@ -117,38 +117,47 @@ def lr_grammars(pp):
 
 
 # thread specs: (target grammar, top-level entry, input)
+# roles: parse2 = both threads enter through parse_string; scan2 = both enter through the scan_string family;
+#        twin = the outer grammar twice (equal / permuted inputs); three = three threads
 THREADS = {
-    "field": [
-        [("rec", "parse", '"1,2,3"'), ("sub", "parse", "4,5")],
-        [("rec", "parse", '"1,2,3"'), ("rec", "parse", '"1,2,3"')],
-        [("rec", "search", 'x "1,2" "3"'), ("sub", "scan", "1,2 3")],
-        [("rec", "parse", '"1,2,3"'), ("rec", "parse", '"7,8"'), ("sub", "parse", "1,2,3")],
-    ],
-    "rows": [
-        [("rec", "parse", "1,2;3"), ("sub", "parse", "3")],
-        [("rec", "parse", "1,2;3"), ("rec", "parse", "3;1,2")],
-        [("rec", "parse", "1,2;3"), ("sub", "search", "1,2"), ("rec", "parse", "1,2;3")],
-    ],
-    "cond": [
-        [("rec", "parse", "1,2?"), ("sub", "parse", "1,2")],
-        [("rec", "parse", "1,2?"), ("rec", "parse", "1,2!")],
-        [("rec", "parse", "1,2"), ("rec", "scan", "1,2? 3!"), ("sub", "parse", "3")],
-    ],
-    "deep": [
-        [("rec", "parse", "'1,2;3'"), ("sub", "parse", "3")],
-        [("rec", "parse", "'1,2;3'"), ("rec", "parse", "'1,2;3'")],
-        [("rec", "parse", "'1;2'"), ("sub", "parse", "1"), ("rec", "parse", "'2;1'")],
-    ],
-    # left-recursion mode: every thread parses the SAME input with the same grammar (outside the region of the
-    # known finding lr_mode_shared_memo), and every entry reset_cache() precedes the first memo access
-    "lrrows": [
-        [("rec", "parse", "1,2;3")] * 2,
-        [("rec", "parse", "1,2;3")] * 3,
-    ],
-    "lrwrap": [
-        [("rec", "parse", '"1,2,3"')] * 2,
-        [("rec", "parse", '"1,2,3"')] * 3,
-    ],
+    "field": {
+        "parse2": [("rec", "parse", '"1,2,3"'), ("sub", "parse", "4,5")],
+        "scan2": [("rec", "search", 'x "1,2" "3"'), ("sub", "scan", "1,2 3")],
+        "twin": [("rec", "parse", '"1,2,3"'), ("rec", "parse", '"1,2,3"')],
+        "three": [("rec", "parse", '"1,2,3"'), ("rec", "parse", '"7,8"'), ("sub", "parse", "1,2,3")],
+    },
+    "rows": {
+        "parse2": [("rec", "parse", "1,2;3"), ("sub", "parse", "3")],
+        "scan2": [("rec", "scan", "1,2;3 4"), ("sub", "search", "1,2 3")],
+        "twin": [("rec", "parse", "1,2;3"), ("rec", "parse", "3;1,2")],
+        "three": [("rec", "parse", "1,2;3"), ("sub", "search", "1,2"), ("rec", "parse", "1,2;3")],
+    },
+    "cond": {
+        "parse2": [("rec", "parse", "1,2?"), ("sub", "parse", "1,2")],
+        "scan2": [("rec", "scan", "1,2? 3!"), ("sub", "transform", "3,4")],
+        "twin": [("rec", "parse", "1,2?"), ("rec", "parse", "1,2!")],
+        "three": [("rec", "parse", "1,2"), ("rec", "scan", "1,2? 3!"), ("sub", "parse", "3")],
+    },
+    "deep": {
+        "parse2": [("rec", "parse", "'1,2;3'"), ("sub", "parse", "3")],
+        "scan2": [("rec", "transform", "'1;2' x"), ("sub", "search", "3 4")],
+        "twin": [("rec", "parse", "'1,2;3'"), ("rec", "parse", "'1,2;3'")],
+        "three": [("rec", "parse", "'1;2'"), ("sub", "parse", "1"), ("rec", "parse", "'2;1'")],
+    },
+    # left-recursion mode.  same2 / same3: every thread parses the SAME input with the same grammar; when moreover
+    # every entry reset_cache() precedes the first memo access the run is outside the region of the known finding
+    # lr_mode_shared_memo and outcomes are compared.  Every other schedule / spec is explored for DEADLOCKS (and
+    # lock order, trace validation); a differing outcome there is that known finding.
+    "lrrows": {
+        "same2": [("rec", "parse", "1,2;3")] * 2,
+        "same3": [("rec", "parse", "1,2;3")] * 3,
+        "mixed": [("rec", "parse", "1,2;3"), ("sub", "scan", "4,5")],
+    },
+    "lrwrap": {
+        "same2": [("rec", "parse", '"1,2,3"')] * 2,
+        "same3": [("rec", "parse", '"1,2,3"')] * 3,
+        "mixed": [("rec", "search", 'x "1,2"'), ("sub", "parse", "4,5")],
+    },
 }
 
 MODES = [("off",), ("packrat", 0), ("packrat", 2), ("packrat", 128), ("packrat", None)]
@@ -329,27 +338,42 @@ def steps_alone(c, t, gran):
     return len(ses.sched_done)
 
 
+SCAN_FAMILY = ("scan", "search", "transform")
+
+
 def case_specs(ctx):
-    """quick: per (grammar, mode) one thread spec and one entry point, rotating with the seed so that every spec and
-    every entry point meets several modes; thorough: every spec, two entry points each"""
+    """quick, per grammar: the four packrat sizes (shuffled by the seed) meet the four thread-spec roles - parse2 with
+    a nested parse_string, scan2 with a nested call of the scan_string family, twin and three with any entry point -
+    and mode off one role; left-recursion: every spec.  thorough: every role x every mode, two entry points each."""
     rng = ctx.subrng("nested-cases")
     thorough = ctx.tier == "thorough"
     out = []
+
+    def vias_for(role, k):
+        if role == "parse2":
+            return (["parse"] + rng.sample(SCAN_FAMILY, 1))[:k]
+        if role == "scan2":
+            return rng.sample(SCAN_FAMILY, k)
+        return rng.sample(VIAS, k)
+
     for gname in ("field", "rows", "cond", "deep"):
-        vias = list(VIAS)
-        rng.shuffle(vias)
         specs = THREADS[gname]
-        off = rng.randrange(len(specs))
-        for mi, mode in enumerate(MODES):
-            picks = specs if thorough else [specs[(mi + off) % len(specs)]]
-            for j, th in enumerate(picks):
-                for via in ([vias[(mi + j) % 4], vias[(mi + j + 2) % 4]] if thorough else [vias[(mi + j) % 4]]):
-                    out.append((mode, gname, via, th))
+        roles = list(specs)
+        if thorough:
+            for mode in MODES:
+                for role in roles:
+                    for via in vias_for(role, 2):
+                        out.append((mode, gname, via, specs[role]))
+            continue
+        sizes = MODES[1:]
+        rng.shuffle(sizes)
+        for mode, role in zip(sizes, roles):
+            out.append((mode, gname, vias_for(role, 1)[0], specs[role]))
+        role = rng.choice(roles)
+        out.append((MODES[0], gname, vias_for(role, 1)[0], specs[role]))
     for gname in ("lrrows", "lrwrap"):
-        vias = list(VIAS)
-        rng.shuffle(vias)
-        for j, th in enumerate(THREADS[gname]):
-            for via in (VIAS if thorough else [vias[j % 4]]):
+        for role, th in THREADS[gname].items():
+            for via in (rng.sample(VIAS, 2) if thorough else rng.sample(VIAS, 1)):
                 out.append((("lr",), gname, via, th))
     return out
 
@@ -359,14 +383,13 @@ def leg_nested(ctx, C, pp, force_search=False):
     t_start = _t.time()
     stats, recs, run_lines, impl, vlines, vrecs = {}, [], [], [], [], []
     lock_bad = []
-    n_lock_progs = 0
     specs = case_specs(ctx)
     cases = [NestedCase(C, pp, *spec).learn() for spec in specs]
     for c in cases:
         if any(isinstance(o, tuple) for o in c.serial):
             ctx.fail_input("serial call raises an internal error", c.desc(), "ParseBaseException or result",
                            [str(o) for o in c.serial], theorem="(baseline)")
-    dfs_limit = ctx.budget(24, 400)
+    dfs_limit = ctx.budget(24, 300)
     n_runs = 0
     lock_lines, lock_recs = [], []
     for c in cases:
@@ -374,14 +397,25 @@ def leg_nested(ctx, C, pp, force_search=False):
         lock_lines.append("locks-check " + " ".join(dumps(p) for p in c.serial_progs))
         lock_recs.append(dict(c.desc(), gran="serial"))
         modelled = (not c.lr) and c.learn_ok
+        same = len(set(c.threads)) == 1
 
-        def account(ses, outs, status, how):
+        def account(ses, outs, status, how, compare=True):
+            """compare=False: a left-recursion run inside the region of the known finding lr_mode_shared_memo -
+            only a deadlock counts; a differing outcome is reported under that finding's signature"""
             nonlocal n_runs
             n_runs += 1
             if status == "deadlock":
                 how = dict(how, blocked=[f"thread {t} waits for {what} held by thread {h}"
                                          for t, what, h in ses.blocked])
-            c.check_outcomes(ctx, outs, status, how, stats)
+            if compare or status == "deadlock":
+                c.check_outcomes(ctx, outs, status, how, stats)
+            elif status == "ok" and outs != c.serial:
+                stats["known-lr-region"] = stats.get("known-lr-region", 0) + 1
+                ctx.fail_input("left-recursion mode: concurrent outcome differs from serial outcome",
+                               dict(c.desc(), **how), c.serial, [str(o) for o in outs],
+                               theorem="PP.Threads.LR.lr_race_witness / lr_reset_race_witness", signature=C.SIG)
+            else:
+                stats["ok"] = stats.get("ok", 0) + 1
             rec = dict(c.desc(), **how)
             tr = strip_markers(ses.trace)
             if status == "ok":
@@ -394,46 +428,54 @@ def leg_nested(ctx, C, pp, force_search=False):
                 run_lines.append(c.line("threads-run", how["gran"], [Sym("sched")] + how["sched"]))
                 impl.append(c.impl_string(ses, outs, status))
 
-        # (a) all interleavings at lock-region granularity
-        def run_region(prefix):
-            ses, outs, status = c.forced("region", sched=list(prefix))
-            account(ses, outs, status, {"gran": "region", "sched": list(ses.sched_done)})
-            return list(ses.sched_done), list(ses.enabled_log)
+        # variants: (prefix that completes every entry reset_cache() first?, are outcomes compared?)
+        if not c.lr:
+            variants = [(False, True)]
+        elif same:
+            variants = [(True, True), (False, False)]
+        else:
+            variants = [(False, False)]
+        for resets1st, compare in variants:
+            # (a) all interleavings at lock-region granularity
+            def run_region(prefix):
+                ses, outs, status = c.forced("region", sched=list(prefix))
+                account(ses, outs, status, {"gran": "region", "sched": list(ses.sched_done)}, compare)
+                return list(ses.sched_done), list(ses.enabled_log)
 
-        first = resets_first(n, "region") if c.lr else []
-        if len(ctx.fail_inputs) < 3:
-            _, exhausted = dfs_schedules(run_region, first, len(first), dfs_limit)
-            stats["dfs-exhausted" if exhausted else "dfs-cut"] = stats.get(
-                "dfs-exhausted" if exhausted else "dfs-cut", 0) + 1
-        # (b) every placement of the other threads' entry relative to each lock operation of a first thread
-        pre = resets_first(n, "lock") if c.lr else []
-        firsts = range(n) if (ctx.tier == "thorough" or force_search) else [0]
-        for f in firsts:
-            if c.threads[f][0] != "rec":
-                continue
-            total = steps_alone(c, f, "lock")
-            orders = [list(range(n))] + ([list(reversed(range(n)))] if n > 2 else [])
-            # quick: about 16 evenly spaced placements per first thread (search: 32, every first thread);
-            # thorough: every one
-            stride = 1 if ctx.tier == "thorough" else max(1, total // (32 if force_search else 16))
-            for k in range(0, total + 1, stride):
-                for order in orders:
-                    if len(ctx.fail_inputs) >= 3:
-                        break
-                    st = {"i": 0}
-                    inner = placement_chooser(f, k, order)
+            first = resets_first(n, "region") if resets1st else []
+            if len(ctx.fail_inputs) < 3:
+                _, exhausted = dfs_schedules(run_region, first, len(first), dfs_limit)
+                key = "dfs-exhausted" if exhausted else "dfs-cut"
+                stats[key] = stats.get(key, 0) + 1
+            # (b) every placement of the other threads' entry relative to each lock operation of a first thread
+            pre = resets_first(n, "lock") if resets1st else []
+            firsts = range(n) if (ctx.tier == "thorough" or force_search) else [0]
+            for f in firsts:
+                if c.threads[f][0] != "rec":
+                    continue
+                total = steps_alone(c, f, "lock")
+                orders = [list(range(n))] + ([list(reversed(range(n)))] if n > 2 else [])
+                # quick: about 16 evenly spaced placements per first thread (search: 32, every first thread);
+                # thorough: every one
+                stride = 1 if ctx.tier == "thorough" else max(1, total // (32 if force_search else 16))
+                for k in range(0, total + 1, stride):
+                    for order in orders:
+                        if len(ctx.fail_inputs) >= 3:
+                            break
+                        st = {"i": 0}
+                        inner = placement_chooser(f, k, order)
 
-                    def ch(en, ses, st=st, inner=inner):
-                        if st["i"] < len(pre):  # left-recursion mode: entry resets first
-                            t = pre[st["i"]]
-                            st["i"] += 1
-                            if t in en:
-                                return t
-                        return inner(en, ses)
+                        def ch(en, ses, st=st, inner=inner, pre=pre):
+                            if st["i"] < len(pre):  # every entry reset first
+                                t = pre[st["i"]]
+                                st["i"] += 1
+                                if t in en:
+                                    return t
+                            return inner(en, ses)
 
-                    ses, outs, status = c.forced("lock", chooser=ch)
-                    account(ses, outs, status, {"gran": "lock", "sched": list(ses.sched_done),
-                                                "placement": [f, k, order]})
+                        ses, outs, status = c.forced("lock", chooser=ch)
+                        account(ses, outs, status, {"gran": "lock", "sched": list(ses.sched_done),
+                                                    "placement": [f, k, order]}, compare)
     ctx.notes.setdefault("leg_seconds", {})["nested_real_runs"] = round(_t.time() - t_start, 1)
     # the hypothesis of Locks.lock_order_no_deadlock, on every thread of every logged run
     lout = ctx.driver.run_sharded(lock_lines)
